@@ -66,11 +66,11 @@ func (z *zzImpl) Nested(vv [][]uint16) ([][]uint16, error) {
 }
 
 func zzPoint(label string) Point {
-	return Point{X: sym.I32(label + "-x"), Y: sym.I16(label + "-y"), Label: sym.Str(label+"-label", 1)}
+	return Point{Visible: sym.Bool(label + "-visible"), X: sym.I32(label + "-x"), Layer: sym.I8(label + "-layer"), Y: sym.I16(label + "-y"), Label: sym.Str(label+"-label", 1)}
 }
 
 func zzSamePoint(a, b Point) bool {
-	return sym.And(sym.And(a.X == b.X, a.Y == b.Y), sym.EqStr(a.Label, b.Label))
+	return sym.And(sym.And(sym.And(a.X == b.X, a.Y == b.Y), sym.And(a.Visible == b.Visible, a.Layer == b.Layer)), sym.EqStr(a.Label, b.Label))
 }
 
 // C05Containers: lists, structs (shared between actions), maps, nested lists and dynamic values
